@@ -188,6 +188,7 @@ func (c *Ctx) ruleMapOrder(rule string, m *core.Module, fns map[*ssa.Function]bo
 			pos := m.Pos(l.pos)
 			c.checkLoopExits(rule, m, l, base, pos)
 			c.checkLoopAccumulation(rule, m, l, base, pos)
+			c.checkLoopCarriedReads(rule, m, l, base, pos)
 		}
 	}
 }
@@ -889,4 +890,224 @@ func (c *Ctx) onlyMsg(m *core.Module, in ssa.Instruction, seen map[ssa.Instructi
 		return callers > 0 && !ast_IsExported(fn.Name())
 	}
 	return false
+}
+
+// ---- loop-carried reads of a map the loop is filling -------------------------------------------------------------------
+//
+// A loop over a map that inserts into another map (typically result[key] = ...) and, in the same loop, reads that map
+// at a key other than the current one sees whatever earlier iterations happened to insert: the outcome depends on the
+// iteration order. Obligations: every read (lookup, range, or hand-over to a callee that reads) of a map that the loop
+// also updates; discharged when the read is at the loop's own key (or, in a callee, at the parameter that receives it).
+
+// loopKeys: values that are the current key of the loop (and copies of it).
+func loopKeys(l *mapLoop) map[ssa.Value]bool {
+	keys := map[ssa.Value]bool{}
+	for b := range l.blocks {
+		for _, in := range b.Instrs {
+			switch x := in.(type) {
+			case *ssa.Extract:
+				if nx, ok := x.Tuple.(*ssa.Next); ok && x.Index == 1 && l.kind == "range" {
+					if rg, ok := nx.Iter.(*ssa.Range); ok && rg.X == l.mapVal {
+						keys[x] = true
+					}
+				}
+			case *ssa.Call:
+				if l.kind == "MapRange" && core.StaticCalleeName(&x.Call) == "(*reflect.MapIter).Key" && x.Call.Args[0] == l.mapVal {
+					keys[x] = true
+				}
+			}
+		}
+	}
+	for changed := true; changed; {
+		changed = false
+		for b := range l.blocks {
+			for _, in := range b.Instrs {
+				v, ok := in.(ssa.Value)
+				if !ok || keys[v] {
+					continue
+				}
+				switch x := in.(type) {
+				case *ssa.ChangeType:
+					if keys[x.X] {
+						keys[v] = true
+						changed = true
+					}
+				case *ssa.Convert:
+					if keys[x.X] {
+						keys[v] = true
+						changed = true
+					}
+				case *ssa.MakeInterface:
+					if keys[x.X] {
+						keys[v] = true
+						changed = true
+					}
+				case *ssa.TypeAssert:
+					if keys[x.X] {
+						keys[v] = true
+						changed = true
+					}
+				case *ssa.Extract:
+					if keys[x.Tuple] && x.Index == 0 {
+						keys[v] = true
+						changed = true
+					}
+				case *ssa.Call:
+					if core.StaticCalleeName(&x.Call) == "(reflect.Value).Interface" && keys[x.Call.Args[0]] {
+						keys[v] = true
+						changed = true
+					}
+				}
+			}
+		}
+	}
+	return keys
+}
+
+// readsOtherKeys: fn reads its map parameter mp at a key that is not one of the parameters in keyParams (or ranges
+// over it). Depth-bounded.
+func (c *Ctx) readsOtherKeys(m *core.Module, fn *ssa.Function, mp int, keyParams map[int]bool, depth int) (bool, string) {
+	if depth > 3 || len(fn.Blocks) == 0 || mp >= len(fn.Params) {
+		return false, ""
+	}
+	mv := ssa.Value(fn.Params[mp])
+	isKey := func(v ssa.Value) bool {
+		for i := 0; i < 4; i++ {
+			if p, ok := v.(*ssa.Parameter); ok {
+				for j, q := range fn.Params {
+					if q == p && keyParams[j] {
+						return true
+					}
+				}
+				return false
+			}
+			switch x := v.(type) {
+			case *ssa.ChangeType:
+				v = x.X
+			case *ssa.Convert:
+				v = x.X
+			default:
+				return false
+			}
+		}
+		return false
+	}
+	for _, b := range fn.Blocks {
+		for _, in := range b.Instrs {
+			switch x := in.(type) {
+			case *ssa.Lookup:
+				if x.X == mv && !isKey(x.Index) {
+					return true, "lookup at " + m.InstrPos(x) + " in " + m.Key(fn)
+				}
+			case *ssa.Range:
+				if x.X == mv {
+					return true, "range at " + m.InstrPos(x) + " in " + m.Key(fn)
+				}
+			case *ssa.Call:
+				args := x.Call.Args
+				off := 0
+				if x.Call.IsInvoke() {
+					off = 1
+				}
+				for ai, a := range args {
+					if a != mv {
+						continue
+					}
+					for _, g := range m.Callees(&x.Call) {
+						kp := map[int]bool{}
+						for aj, a2 := range args {
+							if isKey(a2) {
+								kp[aj+off] = true
+							}
+						}
+						if bad, why := c.readsOtherKeys(m, g, ai+off, kp, depth+1); bad {
+							return true, why
+						}
+					}
+				}
+			}
+		}
+	}
+	return false, ""
+}
+
+func (c *Ctx) checkLoopCarriedReads(rule string, m *core.Module, l *mapLoop, base, pos string) {
+	written := map[ssa.Value]bool{}
+	for _, b := range l.fn.Blocks {
+		if !l.blocks[b] {
+			continue
+		}
+		for _, in := range b.Instrs {
+			if mu, ok := in.(*ssa.MapUpdate); ok && mu.Map != l.mapVal {
+				written[mu.Map] = true
+			}
+		}
+	}
+	if len(written) == 0 {
+		return
+	}
+	keys := loopKeys(l)
+	n := 0
+	for _, b := range l.fn.Blocks {
+		if !l.blocks[b] {
+			continue
+		}
+		for _, in := range b.Instrs {
+			switch x := in.(type) {
+			case *ssa.Lookup:
+				if !written[x.X] {
+					continue
+				}
+				n++
+				k := key(base, sprintf("read #%d of the map the loop fills (%s)", n, c.stableIn(m, l.fn, m.ValPath(x.X))))
+				if keys[x.Index] {
+					c.R.Ok(rule, k, m.InstrPos(x), "read of a map that the loop also updates", "the read is at the loop's own key: it cannot see another iteration's insertion")
+				} else {
+					c.R.Bad(rule, k, m.InstrPos(x), "the loop reads the map it is filling at a key other than the current one",
+						"whether that entry is already there depends on which iterations ran before: the verdict or result depends on the map iteration order")
+				}
+			case *ssa.Range:
+				if written[x.X] {
+					n++
+					c.R.Bad(rule, key(base, sprintf("read #%d of the map the loop fills (range)", n)), m.InstrPos(x), "the loop ranges over the map it is filling",
+						"what it sees depends on which iterations ran before")
+				}
+			case *ssa.Call:
+				args := x.Call.Args
+				off := 0
+				if x.Call.IsInvoke() {
+					off = 1
+				}
+				for ai, a := range args {
+					if !written[a] {
+						continue
+					}
+					callees := m.Callees(&x.Call)
+					if len(callees) == 0 {
+						continue
+					}
+					n++
+					k := key(base, sprintf("hand-over #%d of the map the loop fills (%s)", n, c.stableIn(m, l.fn, m.ValPath(a))))
+					kp := map[int]bool{}
+					for aj, a2 := range args {
+						if keys[a2] {
+							kp[aj+off] = true
+						}
+					}
+					bad, why := false, ""
+					for _, g := range callees {
+						if b2, w := c.readsOtherKeys(m, g, ai+off, kp, 0); b2 {
+							bad, why = true, w
+						}
+					}
+					if bad {
+						c.R.Bad(rule, k, m.InstrPos(x), "the loop hands the map it is filling to a function that reads it at other keys",
+							why+": whether those entries are already there depends on which iterations ran before, so the verdict or result depends on the map iteration order")
+					} else {
+						c.R.Ok(rule, k, m.InstrPos(x), "hand-over of a map that the loop also updates", "the callee reads it only at the parameter that receives the loop's key")
+					}
+				}
+			}
+		}
+	}
 }
